@@ -2129,6 +2129,48 @@ def gen_audit_as_overlap_case(rng, cid):
     return finalize(case)
 
 
+def boost_cycle_behind_entry(rng, case):
+    """fault-free validate case + an implication cycle that is first reached from a criterion OUTSIDE it (which sorts before
+    its members): local table, or (unlocked) a peer's table"""
+    store = case["store_struct"]
+    peers = case.get("peers_struct") or {}
+    two = rng.random() < 0.6
+    tbl = {"an-entry": {"description": "x", "implies": ["loop-a"]},
+           "loop-a": {"description": "x", "implies": ["loop-b"] if two else ["loop-a"]}}
+    if two:
+        tbl["loop-b"] = {"description": "x", "implies": ["loop-a"]}
+    urls = [imp["url"][0] for imp in store["imports"].values() if imp["url"][0] in peers]
+    if urls and rng.random() < 0.4:
+        peers[rng.choice(sorted(urls))].setdefault("criteria", {}).update(tbl)
+        case["mode"] = "unlocked"
+        case["faults"] = list(case.get("faults", [])) + [{"kind": "peer-table-cycle"}]
+    else:
+        store["criteria"].update(tbl)
+        case["faults"] = list(case.get("faults", [])) + [{"kind": "table-cycle"}]
+    return finalize(case)
+
+
+def gen_audit_as_git_case(rng, cid):
+    """a GIT-revision (or path) package whose name, description and repository crates.io knows, and (variant) no policy entry
+    making the choice: an unlocked `cargo vet` must refuse to pass while the choice is missing — whatever the package's source kind"""
+    src = rng.choice(["git:" + GITREV, "git:" + GITREV, "path"])
+    v = rng.choice([x for x in VERSIONS if "-" not in x])
+    fp = {"name": "fgaaa", "version": v, "source": src, "workspace": False, "deps": [], "description": "a crate",
+          "repository": "https://example.com/fgaaa"}
+    ws = {"name": "wsaaa", "version": "1.0.0", "source": "path", "workspace": True,
+          "deps": [{"name": "fgaaa", "version": v, "source": src, "kinds": ["normal"]}]}
+    pkgs = [ws, fp] if rng.random() < 0.5 else [fp, ws]
+    choice = rng.choice([None, None, True, False])
+    policy = {} if choice is None else {rng.choice(["fgaaa", f"fgaaa:{vstr(fp)}"]): {"audit-as-crates-io": choice}}
+    store = {"criteria": {}, "policy": policy, "imports": {}, "exemptions": {}, "audits": {}, "wildcard_audits": {},
+             "trusted": {}, "lock": {"audits": {}, "publisher": {}, "unpublished": {}}}
+    meta = rng.choice([{"description": "a crate"}, {"repository": "https://example.com/fgaaa"}])
+    case = {"id": cid, "kind": "audit_as", "graph": {"packages": pkgs}, "store_struct": store,
+            "registry": {"users": [[1, "user1", "User 1"]], "packages": {"fgaaa": [{"version": "1.0.0", "by": 1, "when": "2022-01-01"}]},
+                         "meta": {"fgaaa": meta}}}
+    return finalize(case)
+
+
 def gen_audit_as_case(rng, cid):
     pkgs = gen_graph(rng)
     # more non-registry packages, some sharing a name with a registry crate
@@ -2685,6 +2727,9 @@ def gen_cache_contention_case(rng, cid):
     final counter is the number of cache users — whoever gets the cache next sees everything the previous holder wrote"""
     n = rng.choice([4, 5, 6, 8])
     users = [{"role": "cache", "start_us": rng.randrange(0, 200), "think_us": rng.choice([200, 800, 2000])} for _ in range(n)]
+    if rng.random() < 0.4:
+        # the first to arrive runs `gc --clean` while holding the cache: the lock file itself must survive it
+        users[0].update({"start_us": 0, "think_us": 2000, "clean": True})
     users += [{"role": "writer", "start_us": rng.randrange(0, 300), "think_us": rng.choice([0, 200])} for _ in range(2)]
     rng.shuffle(users)
     return {"id": cid, "kind": "lock", "users": users, "padding": rng.choice([0, 20, 400])}
